@@ -44,11 +44,29 @@ public:
     explicit type_t(int i): id(i) {}
     bool operator==(const type_t& o) const { return id == o.id; }
     bool operator!=(const type_t& o) const { return id != o.id; }
+#ifdef VERIF_FRAME_ARENA
+    /* identity = base kind * 2 + CONSTANT flag */
+    static type_t create_primitive(kind_t k, position_t = position_t()) { return type_t((int)k * 2); }
+    bool is(kind_t k) const { return k == Constants::CONSTANT ? (id & 1) != 0 : (id >> 1) == (int)k; }
+    type_t create_prefix(kind_t k) const { __CPROVER_assert(k == Constants::CONSTANT, "stub: only the CONSTANT prefix is modelled"); return type_t(id | 1); }
+    bool is_integer() const { return (id >> 1) == (int)Constants::INT; }
+    bool is_scalar() const { return (id >> 1) == (int)Constants::SCALAR; }
+    bool is_location() const { return (id >> 1) == (int)Constants::LOCATION; }
+#else
     static type_t create_primitive(kind_t k) { return type_t(1000 + (int)k); }
+#endif
     /* identities 3000..3999 are array types; the element type of array type i is identity i + 10000 */
     bool is_array() const { return id >= 3000 && id < 4000; }
     type_t get_sub() const { return type_t(id + 10000); }
 };
+#ifdef VERIF_FRAME_ARENA
+typedef int verif_name; /* identity of an identifier spelling */
+#define VERIF_NSYMS 8
+#define VERIF_NFRAMES 8
+struct verif_symrec { verif_name name; int type; int frame; void* user; };
+extern verif_symrec verif_symtab[VERIF_NSYMS];
+extern int verif_nsyms;
+#endif
 class symbol_t
 {
 public:
@@ -57,20 +75,70 @@ public:
     explicit symbol_t(int i): id(i) {}
     bool operator==(const symbol_t& o) const { return id == o.id; }
     bool operator!=(const symbol_t& o) const { return id != o.id; }
+#ifdef VERIF_FRAME_ARENA
+    verif_name get_name() const { __CPROVER_assert(id >= 0 && id < VERIF_NSYMS, "stub: symbol id in range"); return verif_symtab[id].name; }
+    type_t get_type() const { __CPROVER_assert(id >= 0 && id < VERIF_NSYMS, "stub: symbol id in range"); return type_t(verif_symtab[id].type); }
+    void* get_data() const { return verif_symtab[id].user; }
+#else
     int get_name() const { return id; }  /* names are identities here */
     type_t get_type() const { return type_t(2000 + id); }
+#endif
 };
 /* frame_t: resolve(name, out) is a partial map name -> symbol given by ghost tables */
+#ifdef VERIF_FRAME_ARENA
+struct verif_framerec { int parent; int nsym; int sym[3]; };
+extern verif_framerec verif_frames[VERIF_NFRAMES];
+extern int verif_nframes;
+#endif
 class frame_t
 {
 public:
-    int which; /* 0 = null frame, 1 = A, 2 = B */
+    int which; /* 0 = null frame; without the arena: 1 = A, 2 = B; with it: 1 + index into verif_frames */
+#ifdef VERIF_FRAME_ARENA
+    static frame_t create(const frame_t& parent)
+    {
+        __CPROVER_assert(verif_nframes < VERIF_NFRAMES, "stub: frame arena capacity");
+        verif_frames[verif_nframes].parent = parent.which; verif_frames[verif_nframes].nsym = 0;
+        verif_nframes++;
+        return frame_t(verif_nframes);
+    }
+    symbol_t add_symbol(verif_name name, type_t type, position_t, void* user = nullptr)
+    {
+        __CPROVER_assert(which > 0 && verif_nsyms < VERIF_NSYMS && verif_frames[which - 1].nsym < 3, "stub: symbol arena capacity");
+        verif_symtab[verif_nsyms].name = name; verif_symtab[verif_nsyms].type = type.id; verif_symtab[verif_nsyms].frame = which; verif_symtab[verif_nsyms].user = user;
+        verif_frames[which - 1].sym[verif_frames[which - 1].nsym] = verif_nsyms;
+        verif_frames[which - 1].nsym++;
+        verif_nsyms++;
+        return symbol_t(verif_nsyms - 1);
+    }
+    symbol_t operator[](uint32_t i) const
+    {
+        __CPROVER_assert(which > 0 && i < (uint32_t)verif_frames[which - 1].nsym, "stub: frame index < get_size()");
+        return symbol_t(verif_frames[which - 1].sym[i]);
+    }
+    uint32_t get_size() const { return (uint32_t)verif_frames[which - 1].nsym; }
+    /* contract proved for the real frame_t (c07_resolve + induction over the chain): the nearest frame wins, the last declaration in it */
+    bool verif_resolve(verif_name name, symbol_t& out) const
+    {
+        int f = which;
+        for (int depth = 0; depth < VERIF_NFRAMES && f > 0; depth++) {
+            for (int i = verif_frames[f - 1].nsym - 1; i >= 0; i--) {
+                if (verif_symtab[verif_frames[f - 1].sym[i]].name == name) { out = symbol_t(verif_frames[f - 1].sym[i]); return true; }
+            }
+            f = verif_frames[f - 1].parent;
+        }
+        return false;
+    }
+#endif
     frame_t(): which(0) {}
     explicit frame_t(int w): which(w) {}
     bool operator==(const frame_t& o) const { return which == o.which; }
     bool operator!=(const frame_t& o) const { return which != o.which; }
     bool resolve(int name, symbol_t& out) const
     {
+#ifdef VERIF_FRAME_ARENA
+        return verif_resolve(name, out);
+#endif
         __CPROVER_assert(which != 0, "stub: resolve on a non-null frame");
         if (name < 0 || name >= 4) return false;
         if (which == 1) { if (!verif_frameA_has[name]) return false; out = symbol_t(verif_frameA_to[name]); return true; }
@@ -118,6 +186,7 @@ public:
     size_t n;
     vector(): n(0) {}
     explicit vector(size_t k): n(k) { __CPROVER_assert(k <= VERIF_VEC_CAP, "stub: vector capacity (arity bound)"); }
+    T& back() { __CPROVER_assert(n > 0, "stub: back() on a non-empty vector"); return elems[n - 1]; }
     void pop_back() { __CPROVER_assert(n > 0, "stub: pop_back() on a non-empty vector"); n--; }
     /* explicit copy operations: CBMC cannot synthesise them for a class with an array member */
     vector(const vector& o): n(o.n)
